@@ -5,3 +5,5 @@ import TinsModel.Props.C04
 #print axioms Tins.Props.C04.built_packet_reparse_entry
 #print axioms Tins.Props.C04.built_packet_reparse_net
 #print axioms Tins.Props.C04.built_packet_serializes_all
+#print axioms Tins.Props.C04.icmp6_typed_codecs
+#print axioms Tins.Props.C04.icmp6_dns_search_list_codec
